@@ -1105,19 +1105,262 @@ Theorem plain_equiv b recs trailer rd fuel oracle fm pos len :
   stream_ok recs trailer ->
   reads_stream rd (encode recs ++ trailer) -> (length recs < fuel)%nat ->
   flatmap_init_file rd fuel oracle = OpenFlat (InitDone ST_OK fm) ->
-  pos + len <= OFF_LIMIT -> 0 < len ->
+  pos + len <= OFF_LIMIT - 4096 ->      (* what pread(2) can address in the plain file *)
   flatmap_pread rd (Some fm) (Z.of_N pos) len
-  = flatmap_pread (file_rd {| pf_bytes := b; pf_fail := None; pf_failst := 0 |}) None (Z.of_N pos) len
-  \/ OFF_LIMIT - 4096 < pos + len.
+  = flatmap_pread (file_rd {| pf_bytes := b; pf_fail := None; pf_failst := 0 |}) None (Z.of_N pos) len.
 Proof.
-  intros Hseg Hs Hrd Hfuel Hopen Hl Hlen.
-  destruct (N.lt_ge_cases (OFF_LIMIT - 4096) (pos + len)) as [Hbig|Hsmall]; [now right|left].
-  rewrite (pread_is_rearranged _ _ _ _ _ _ _ _ Hs Hrd Hfuel Hopen Hl).
+  intros Hseg Hs Hrd Hfuel Hopen Hl.
+  assert (Hl' : pos + len <= OFF_LIMIT) by (unfold OFF_LIMIT in *; lia).
+  rewrite (pread_is_rearranged _ _ _ _ _ _ _ _ Hs Hrd Hfuel Hopen Hl').
   cbn [flatmap_pread]. unfold file_rd. cbn [pf_fail pf_bytes].
-  destruct (N.eqb_spec len 0); [lia|].
+  destruct (N.eqb_spec len 0) as [->|Hn]; [reflexivity|].
   unfold OFF_LIMIT, OFF_MAX in *.
   destruct (Z.ltb_spec (Z.of_N pos) 0); [lia|].
   destruct (Z.ltb_spec (9223372036854775807 - 4095) (Z.of_N pos + Z.of_N len)); [lia|].
   cbn [orb]. rewrite N2Z.id, slice0_plain. f_equal.
   apply slice_ext. now apply rearrange_segmentation.
+Qed.
+
+(** the file used by the correspondence run is a file cache over its bytes *)
+Lemma file_rd_reads_stream b :
+  N.of_nat (length b) <= OFF_LIMIT - 4096 ->
+  reads_stream (file_rd {| pf_bytes := b; pf_fail := None; pf_failst := 0 |}) b.
+Proof.
+  intros Hb p n Hp Hn. unfold file_rd. cbn [pf_fail pf_bytes].
+  destruct (N.eqb_spec n 0) as [->|Hn0]; [reflexivity|].
+  unfold OFF_LIMIT, OFF_MAX in *.
+  destruct (Z.ltb_spec p 0); [lia|].
+  destruct (Z.ltb_spec (9223372036854775807 - 4095) (p + Z.of_N n)); [lia|].
+  cbn [orb]. f_equal. apply slice0_sl; lia.
+Qed.
+
+(** * [flatmap_file_init] on arbitrary (malformed, truncated, hostile) streams *)
+
+Lemma be_val_bound b : forall acc,
+  Forall (fun x => x < 256) b -> be_val acc b < (acc + 1) * 256 ^ N.of_nat (length b).
+Proof.
+  induction b as [|x b IH]; intros acc H.
+  - cbn [be_val length]. change (N.of_nat 0) with 0. rewrite N.pow_0_r. lia.
+  - inversion H as [|x' b' Hx Hb E]; subst x' b'. cbn [be_val length].
+    rewrite Nnat.Nat2N.inj_succ, N.pow_succ_r'.
+    specialize (IH (acc * 256 + x) Hb).
+    set (P := 256 ^ N.of_nat (length b)) in *.
+    assert (HP : 0 < P) by (apply N.neq_0_lt_0, N.pow_nonzero; discriminate).
+    nia.
+Qed.
+
+Lemma be64_bound b : length b = 8%nat -> Forall (fun x => x < 256) b -> be64 b < 18446744073709551616.
+Proof.
+  intros Hl Hb. unfold be64. pose proof (be_val_bound b 0 Hb) as H. rewrite Hl in H.
+  change ((0 + 1) * 256 ^ N.of_nat 8) with 18446744073709551616 in H. exact H.
+Qed.
+
+Lemma s64_range x : x < 18446744073709551616 ->
+  (-9223372036854775808 <= s64 x < 9223372036854775808)%Z.
+Proof. intros H. unfold s64. destruct (N.ltb_spec x 9223372036854775808); lia. Qed.
+
+Lemma Forall_firstn {A} (P : A -> Prop) n l : Forall P l -> Forall P (firstn n l).
+Proof.
+  revert l. induction n as [|n IH]; intros l H; [constructor|].
+  destruct l as [|a l]; [constructor|]. inversion H; subst. cbn [firstn]. constructor; auto.
+Qed.
+
+Lemma Forall_skipn {A} (P : A -> Prop) n l : Forall P l -> Forall P (skipn n l).
+Proof.
+  revert l. induction n as [|n IH]; intros l H; [exact H|].
+  destruct l as [|a l]; [constructor|]. inversion H; subst. cbn [skipn]. auto.
+Qed.
+
+Section AnyStream.
+  Variable rd : Z -> N -> rd_res.
+  Variable flen : N.
+  (** the file cache returns as many bytes as asked, and they are bytes *)
+  Hypothesis rd_bytes : forall p n b,
+    rd p n = RdOk b -> length b = N.to_nat n /\ Forall (fun x => x < 256) b.
+  (** a successful read past the end of the file delivers zero bytes *)
+  Hypothesis rd_eof : forall p n b, (Z.of_N flen <= p)%Z -> rd p n = RdOk b -> b = zeros n.
+
+  Definition need (flatpos : Z) : Z :=
+    if (flatpos <? Z.of_N flen)%Z then ((Z.of_N flen - flatpos) / 17 + 2)%Z else 1%Z.
+
+  (** the statuses [flatmap_file_init] can return *)
+  Definition init_status (st : N) : Prop :=
+    st = ST_OK \/ st = ST_SYSTEM \/ st = ST_CORRUPT \/ exists p, rd p 16 = RdErr st.
+
+  Lemma init_loop_total : forall fuel oracle m offs cap segidx flatpos,
+    tiles m -> cap_ok cap segidx -> (0 <= flatpos)%Z ->
+    (need flatpos <= Z.of_nat fuel)%Z ->
+    segidx + N.of_nat fuel <= METH_LIMIT ->
+    exists st fm, init_loop rd fuel oracle m offs cap segidx flatpos = InitDone st fm /\ init_status st.
+  Proof.
+    pose proof W_val as HW.
+    induction fuel as [|fuel IH]; intros oracle m offs cap segidx flatpos Ht Hcap Hfp Hneed Hseg.
+    - unfold need in Hneed. destruct (Z.ltb_spec flatpos (Z.of_N flen)); lia.
+    - cbn [init_loop]. destruct (rd flatpos 16) as [hdr|st] eqn:Erd.
+      2:{ eexists _, _. split; [reflexivity|]. right. right. right. now exists flatpos. }
+      destruct (rd_bytes _ _ _ Erd) as [Hlen Hby].
+      change (N.to_nat 16) with 16%nat in Hlen.
+      assert (Hp : be64 (firstn 8 hdr) < 18446744073709551616).
+      { apply be64_bound; [rewrite firstn_length; lia|now apply Forall_firstn]. }
+      assert (Hs : be64 (skipn 8 hdr) < 18446744073709551616).
+      { apply be64_bound; [rewrite skipn_length; lia|now apply Forall_skipn]. }
+      apply s64_range in Hp, Hs.
+      assert (Heof : (Z.of_N flen <= flatpos)%Z -> s64 (be64 (skipn 8 hdr)) = 0%Z).
+      { intros H. rewrite (rd_eof _ _ _ H Erd). reflexivity. }
+      set (pos := s64 (be64 (firstn 8 hdr))) in *.
+      set (size := s64 (be64 (skipn 8 hdr))) in *.
+      destruct (Z.eqb_spec pos (-1)).
+      { eexists _, _. split; [reflexivity|]. now left. }
+      destruct (Z.ltb_spec pos 0).
+      { eexists _, _. split; [reflexivity|]. right. right. now left. }
+      destruct (Z.leb_spec size 0); cbn [orb].
+      { eexists _, _. split; [reflexivity|]. right. right. now left. }
+      destruct (Z.ltb_spec (OFF_MAX - flatpos - HDR_SIZE) size).
+      { eexists _, _. split; [reflexivity|]. right. right. now left. }
+      unfold OFF_MAX, HDR_SIZE in *.
+      assert (Hlt : (flatpos < Z.of_N flen)%Z).
+      { destruct (Z.lt_ge_cases flatpos (Z.of_N flen)) as [H'|H']; [exact H'|]. rewrite Heof in * by lia. lia. }
+      destruct (cap_ok_step _ _ Hcap) as (Hcle & Hcap').
+      assert (Hmeth : (METH_LIMIT <=? segidx) = false) by (apply N.leb_gt; lia).
+      assert (Hio : in_off (flatpos + 16 + size) = true).
+      { unfold in_off, OFF_MIN, OFF_MAX. apply andb_true_intro. split; apply Z.leb_le; lia. }
+      assert (Hr : Z.to_N pos + endoff {| endoff := Z.to_N (size - 1); meth := Z.of_N segidx |} < W).
+      { cbn [endoff]. lia. }
+      (* from the store into the offset array onwards *)
+      assert (Hfin : forall orc cap1, (cap1 <=? segidx) = false -> cap_ok cap1 (segidx + 1) ->
+        exists st fm,
+          (if cap1 <=? segidx then InitUB UB_OOB_OFFS
+           else if METH_LIMIT <=? segidx then InitUB UB_SEGIDX
+           else
+             let '(ok2, oracle0) :=
+               if match set_delta m (Z.to_N pos) {| endoff := Z.to_N (size - 1); meth := Z.of_N segidx |} with
+                  | Some d => (0 <? d)%Z | None => false end
+               then next_alloc orc else (true, orc) in
+             match map_set m (Z.to_N pos) {| endoff := Z.to_N (size - 1); meth := Z.of_N segidx |} ok2 with
+             | Ok m' =>
+                 if in_off (flatpos + 16 + size)
+                 then init_loop rd fuel oracle0 m' (offs ++ [(flatpos + 16 - pos)%Z]) cap1
+                                (segidx + 1) (flatpos + 16 + size)%Z
+                 else InitUB UB_OVERFLOW
+             | NoMem => InitDone ST_SYSTEM {| fm_map := m; fm_offs := offs ++ [(flatpos + 16 - pos)%Z] |}
+             | OOB => InitUB UB_OOB_RANGE
+             end) = InitDone st fm /\ init_status st).
+      { intros orc cap1 Hc1 Hc2. rewrite Hc1, Hmeth.
+        destruct (if match set_delta m (Z.to_N pos) {| endoff := Z.to_N (size - 1); meth := Z.of_N segidx |} with
+                     | Some d => (0 <? d)%Z | None => false end
+                  then next_alloc orc else (true, orc)) as [ok2 orc2].
+        pose proof (set_no_oob m (Z.to_N pos) _ ok2 Ht Hr) as Hno.
+        destruct (map_set m (Z.to_N pos) {| endoff := Z.to_N (size - 1); meth := Z.of_N segidx |} ok2)
+          as [m'| |] eqn:Eset.
+        - rewrite Hio.
+          destruct (set_tiles m (Z.to_N pos) _ ok2 m' Ht Hr Eset) as (Htot & _ & _).
+          apply IH; try assumption.
+          + now apply tiles_of_total.
+          + lia.
+          + unfold need in *. destruct (Z.ltb_spec flatpos (Z.of_N flen)); [|lia].
+            destruct (Z.ltb_spec (flatpos + 16 + size) (Z.of_N flen)); lia.
+          + lia.
+        - eexists _, _. split; [reflexivity|]. right. now left.
+        - now destruct Hno. }
+      unfold ALLOC_INC in *.
+      destruct (N.eqb_spec (segidx mod 32) 0) as [E|E].
+      + destruct (next_alloc oracle) as [[|] o'] eqn:En; cbn [negb].
+        * apply Hfin; assumption.
+        * eexists _, _. split; [reflexivity|]. right. now left.
+      + cbn [negb]. apply Hfin; assumption.
+  Qed.
+
+  Theorem file_init_total oracle :
+    flen + 4096 <= 17 * (METH_LIMIT - 2) ->
+    file_init rd (init_fuel flen) oracle = InitNoMap \/
+    exists st fm, file_init rd (init_fuel flen) oracle = InitDone st fm /\ init_status st.
+  Proof.
+    intros Hlim. unfold file_init.
+    destruct (next_alloc oracle) as [[|] o']; cbn [negb]; [right|now left].
+    apply init_loop_total.
+    - apply tiles_nil.
+    - reflexivity.
+    - unfold FlatModel.MDF_HEADER_SIZE. lia.
+    - unfold need, init_fuel, FlatModel.MDF_HEADER_SIZE. destruct (Z.ltb_spec 4096 (Z.of_N flen)); lia.
+    - unfold init_fuel, METH_LIMIT in *. lia.
+  Qed.
+
+End AnyStream.
+
+(** a malformed segment header ends the scan with [KDUMP_ERR_CORRUPT] *)
+Lemma init_loop_malformed rd fuel oracle m offs cap segidx flatpos hdr :
+  rd flatpos 16 = RdOk hdr ->
+  let pos := s64 (be64 (firstn 8 hdr)) in
+  let size := s64 (be64 (skipn 8 hdr)) in
+  (pos <> -1)%Z ->
+  (pos < 0 \/ size <= 0 \/ OFF_MAX - flatpos - HDR_SIZE < size)%Z ->
+  init_loop rd (S fuel) oracle m offs cap segidx flatpos
+  = InitDone ST_CORRUPT {| fm_map := m; fm_offs := offs |}.
+Proof.
+  intros Erd pos size Hne Hbad. cbn [init_loop]. rewrite Erd. fold pos size.
+  destruct (Z.eqb_spec pos (-1)); [contradiction|].
+  destruct (Z.ltb_spec pos 0); [reflexivity|].
+  destruct (Z.leb_spec size 0); [reflexivity|]. cbn [orb].
+  destruct (Z.ltb_spec (OFF_MAX - flatpos - HDR_SIZE) size); [reflexivity|]. lia.
+Qed.
+
+(** the concrete file of the correspondence run satisfies the hypotheses *)
+Lemma take0_props n : forall b,
+  Forall (fun x => x < 256) b -> length (take0 n b) = n /\ Forall (fun x => x < 256) (take0 n b).
+Proof.
+  induction n as [|n IH]; intros b Hb; [split; constructor|].
+  destruct b as [|x b].
+  - destruct (IH [] (Forall_nil _)) as [H1 H2].
+    change (take0 (S n) []) with (0 :: take0 n []). split.
+    + cbn [length]. now f_equal.
+    + constructor; [lia|exact H2].
+  - inversion Hb as [|x' b' Hx Hb' E]; subst x' b'. destruct (IH b Hb') as [H3 H4].
+    change (take0 (S n) (x :: b)) with (x :: take0 n b). split.
+    + cbn [length]. now f_equal.
+    + now constructor.
+Qed.
+
+Lemma zeros_props n : length (zeros n) = N.to_nat n /\ Forall (fun x => x < 256) (zeros n).
+Proof.
+  unfold zeros. split; [apply repeat_length|]. apply Forall_forall. intros x Hx.
+  apply repeat_spec in Hx. subst. lia.
+Qed.
+
+Lemma file_rd_bytes f : Forall (fun x => x < 256) (pf_bytes f) ->
+  forall p n b, file_rd f p n = RdOk b -> length b = N.to_nat n /\ Forall (fun x => x < 256) b.
+Proof.
+  intros Hb p n b. unfold file_rd.
+  destruct (N.eqb_spec n 0) as [->|Hn]; [intros E; injection E as <-; split; constructor|].
+  destruct (match pf_fail f with Some (lo, hi) => _ | None => false end); [discriminate|].
+  destruct ((p <? 0)%Z || (OFF_MAX - 4095 <? p + Z.of_N n)%Z); [discriminate|].
+  intros E. injection E as <-. unfold slice0.
+  destruct (N.of_nat (length (pf_bytes f)) <=? Z.to_N p); [apply zeros_props|].
+  apply take0_props. now apply Forall_skipn.
+Qed.
+
+Lemma file_rd_eof f p n b :
+  (Z.of_N (N.of_nat (length (pf_bytes f))) <= p)%Z -> file_rd f p n = RdOk b -> b = zeros n.
+Proof.
+  intros Hp. unfold file_rd.
+  destruct (N.eqb_spec n 0) as [->|Hn]; [intros E; now injection E as <-|].
+  destruct (match pf_fail f with Some (lo, hi) => _ | None => false end); [discriminate|].
+  destruct ((p <? 0)%Z || (OFF_MAX - 4095 <? p + Z.of_N n)%Z); [discriminate|].
+  intros E. injection E as <-. unfold slice0.
+  destruct (N.leb_spec (N.of_nat (length (pf_bytes f))) (Z.to_N p)); [reflexivity|lia].
+Qed.
+
+(** [flatmap_file_init] on any file: the scan ends within [init_fuel] (one
+    iteration per 17 bytes of file, plus two) iterations, without undefined
+    behaviour, with one of the documented statuses *)
+Theorem init_bounded f oracle :
+  Forall (fun x => x < 256) (pf_bytes f) ->
+  let flen := N.of_nat (length (pf_bytes f)) in
+  flen + 4096 <= 17 * (METH_LIMIT - 2) ->
+  file_init (file_rd f) (init_fuel flen) oracle = InitNoMap \/
+  exists st fm, file_init (file_rd f) (init_fuel flen) oracle = InitDone st fm /\
+                init_status (file_rd f) st.
+Proof.
+  intros Hb flen Hl. apply file_init_total with (flen := flen); try assumption.
+  - now apply file_rd_bytes.
+  - intros p n b. apply file_rd_eof.
 Qed.
